@@ -1316,6 +1316,10 @@ func checkC10(c *Ctx, r *Report) {
 	}
 	r.Floor("logging entry points", len(ro.EntryPoints), 15)
 	entryDecisions(r, ro, c.checkEntrySemantics(r, ro, "C10.entry-values"), "C10")
+	{
+		jok, tok := c.checkLayoutSemantics(r, ro, "C10.layout-values")
+		layoutDecisions(r, jok, tok)
+	}
 	hooks := map[*ssa.Global]string{}
 	for _, h := range hookGlobals {
 		if g := c.logGlobal(h); g != nil {
